@@ -528,6 +528,13 @@ class Leb128Field(VarField):
     def _terminate(self,b,f):
         return b&0x80==0
 
+    def copy(self,obj=None):
+        newf = super().copy(obj)
+        # the copy is built from typename 'c': restore signedness and width
+        newf.sign = self.sign
+        newf.N = self.N
+        return newf
+
     def unpack(self,data,offset=0, psize=0):
         val, sz = read_leb128(data,self.sign,offset)
         self._sz = sz
